@@ -45,15 +45,19 @@ Theorem C11_tree_partial : forall pb att ns, wf_nodes ns ->
 Proof. exact tree_roundtrip. Qed.
 
 (* the file-level line machine, by induction on the list of cues: a file made of the header line and cue blocks
-   (optional identifier line, timing line with hours optional and any setting words, one or more non-blank
-   payload lines) separated by one blank line is read as exactly one paragraph per cue, in order, with exactly
-   the printed begin and end (rationals), the region its settings select (get_or_make_region, shared as in
-   C11_region_sharing) and the tree parsed from its payload; read_cues (Proofs/C11/Lines.v) is that meaning.
-   For payloads without leading/trailing CR and without backslashes the parsed text is the lines joined by LF.
+   (optional identifier line, timing line with hours optional and any setting words, zero or more non-blank
+   payload lines) separated by one blank line is read as exactly one paragraph per cue that has a payload, in
+   order, with exactly the printed begin and end (rationals), the region its settings select
+   (get_or_make_region, shared as in C11_region_sharing) and the tree parsed from its payload; a cue without
+   payload yields no paragraph, raises nothing and leaves its neighbours untouched (repaired in 05a353c);
+   read_cues (Proofs/C11/Lines.v) is that meaning.  For payloads without leading/trailing CR and without
+   backslashes the parsed text is the lines joined by LF.  The empty file is the empty document (7ed55ac).
    NOTE/STYLE/REGION blocks are not part of this statement (they are exercised by the correspondence run). *)
 Theorem C11_cues : forall hdr cs, no_lf hdr = true -> Forall rcue_ok cs ->
   to_model (file_text hdr cs) = read_cues cs [] [].
 Proof. exact file_cues. Qed.
+Theorem C11_empty_file : to_model [] = OkDoc [] [].
+Proof. exact empty_file. Qed.
 Theorem C11_cue_text_lines : forall c, rc_lines c <> [] -> plain_payload (rc_lines c) = true ->
   cue_text c = join_lf (rc_lines c).
 Proof. exact cue_text_plain. Qed.
@@ -61,6 +65,7 @@ Proof. exact cue_text_plain. Qed.
 (* non-vacuity *)
 Example C11_example_file :
   Forall rcue_ok [mkRcue (Some [105;100]) (mkTs None 0 1 0) (mkTs (Some [0;0]) 0 2 500) [[108;105;110;101;58;48]] [[97];[98;32;99]];
+                  mkRcue None (mkTs None 0 2 600) (mkTs None 0 2 900) [] [];
                   mkRcue None (mkTs None 0 3 0) (mkTs None 0 4 0) [] [[60;98;62;120]]].
 Proof. exact file_example. Qed.
 Example C11_example_tokens :
@@ -82,3 +87,4 @@ Print Assumptions C11_region_sharing.
 Print Assumptions C11_tree_partial.
 Print Assumptions C11_cues.
 Print Assumptions C11_cue_text_lines.
+Print Assumptions C11_empty_file.
